@@ -136,6 +136,11 @@ fn shape_to_geo(case: &str, ty: i32, i: usize, ctx: &Ctx, rep: &mut Report) {
         // non-zero exact area are kept by every constructor pass, zero-area rings are reversed by
         // an even number of passes (degenerate holes: bow-ties, slits, repeated points included)
         let _ = stars;
+        // every 12th case: a vertex-less hole right behind the first exterior (the constructors accept it)
+        if i % 12 == 5 {
+            input.insert(1, (if ty == 31 { 3 } else { 1 }, vec![]));
+            rep.count("shapes_with_a_vertexless_hole", 1);
+        }
         (build_from_parts(ty, &input, false), true)
     } else {
         // every third case on the tiny integer grid: consecutive vertices sharing X and Y, repeated
@@ -153,6 +158,37 @@ fn shape_to_geo(case: &str, ty: i32, i: usize, ctx: &Ctx, rep: &mut Report) {
         Ok(Err(e)) => return rep.violation(&format!("shape->geo/{}/refused", tname), case, detail(e.to_string())),
         Ok(Ok(g)) => g,
     };
+    // ---- the typed conversion of the concrete shape (the `From` / `TryFrom` impl a user calls
+    //      directly) yields the same geometry as the one through the generic enum
+    let typed: Result<Option<g::Geometry<f64>>, crate::panicmon::PanicInfo> = panicmon::catch(|| match crate::shapes::clone_shape(&shape) {
+        Shape::Point(p) => Some(g::Geometry::Point(g::Point::<f64>::from(p))),
+        Shape::PointM(p) => Some(g::Geometry::Point(g::Point::<f64>::from(p))),
+        Shape::PointZ(p) => Some(g::Geometry::Point(g::Point::<f64>::from(p))),
+        Shape::Multipoint(p) => Some(g::Geometry::MultiPoint(g::MultiPoint::<f64>::from(p))),
+        Shape::MultipointM(p) => Some(g::Geometry::MultiPoint(g::MultiPoint::<f64>::from(p))),
+        Shape::MultipointZ(p) => Some(g::Geometry::MultiPoint(g::MultiPoint::<f64>::from(p))),
+        Shape::Polyline(p) => Some(g::Geometry::MultiLineString(g::MultiLineString::<f64>::from(p))),
+        Shape::PolylineM(p) => Some(g::Geometry::MultiLineString(g::MultiLineString::<f64>::from(p))),
+        Shape::PolylineZ(p) => Some(g::Geometry::MultiLineString(g::MultiLineString::<f64>::from(p))),
+        Shape::Polygon(p) => Some(g::Geometry::MultiPolygon(g::MultiPolygon::<f64>::from(p))),
+        Shape::PolygonM(p) => Some(g::Geometry::MultiPolygon(g::MultiPolygon::<f64>::from(p))),
+        Shape::PolygonZ(p) => Some(g::Geometry::MultiPolygon(g::MultiPolygon::<f64>::from(p))),
+        Shape::Multipatch(p) => g::MultiPolygon::<f64>::try_from(p).ok().map(g::Geometry::MultiPolygon),
+        Shape::NullShape => None,
+    });
+    match typed {
+        Err(p) => return rep.violation(&format!("shape->geo/{}/typed-conversion-panic", tname), case, detail(p.class())),
+        Ok(t) => {
+            rep.count("typed_conversions_compared_with_the_generic_one", 1);
+            let same = match &t {
+                Some(tg) => format!("{:?}", tg) == format!("{:?}", geom),
+                None => false,
+            };
+            if !same {
+                return rep.violation(&format!("shape->geo/{}/typed-differs-from-generic", tname), case, detail("the typed conversion of the concrete shape differs from Geometry::try_from(Shape)".to_string()));
+            }
+        }
+    }
     // ---- one way: every X/Y pair, its order and its grouping
     let field: Option<&str> = match (&geom, ty) {
         (g::Geometry::Point(p), 1 | 11 | 21) => {
@@ -380,6 +416,19 @@ fn refusals(rep: &mut Report, ctx: &Ctx) {
         ("Multipatch(TriangleStrip,OuterRing)", Shape::Multipatch(Multipatch::with_parts(vec![Patch::TriangleStrip(tri.clone()), Patch::OuterRing(tri.clone())]))),
         ("Multipatch(OuterRing,TriangleFan,OuterRing,OuterRing)", Shape::Multipatch(Multipatch::with_parts(vec![Patch::OuterRing(tri.clone()), Patch::TriangleFan(tri.clone()), Patch::OuterRing(tri.clone()), Patch::OuterRing(tri.clone())]))),
     ];
+    // strips and fans of every small size, alone and behind a ring: refused whatever they contain
+    let mut shapes = shapes;
+    let names: Vec<String> = (3..=6usize).flat_map(|n| [format!("Multipatch(TriangleStrip x{})", n), format!("Multipatch(TriangleFan x{})", n), format!("Multipatch(OuterRing,TriangleFan x{})", n)]).collect();
+    let mut extra: Vec<Shape> = vec![];
+    for n in 3..=6usize {
+        let pts: Vec<PointZ> = (0..n).map(|k| pz(k as f64, (k * k) as f64)).collect();
+        extra.push(Shape::Multipatch(Multipatch::new(Patch::TriangleStrip(pts.clone()))));
+        extra.push(Shape::Multipatch(Multipatch::new(Patch::TriangleFan(pts.clone()))));
+        extra.push(Shape::Multipatch(Multipatch::with_parts(vec![Patch::OuterRing(tri.clone()), Patch::TriangleFan(pts)])));
+    }
+    for (n, s) in names.iter().zip(extra) {
+        shapes.push((n.as_str(), s));
+    }
     for (name, s) in shapes {
         let case = format!("c20:refusal:{}", name);
         if !ctx.want(&case) {
@@ -388,6 +437,15 @@ fn refusals(rep: &mut Report, ctx: &Ctx) {
         rep.eval();
         rep.class("refusal");
         rep.nontrivial(&case);
+        // the typed conversion a user may call directly refuses it as well
+        if let Shape::Multipatch(mp) = &s {
+            let mp = mp.clone();
+            match panicmon::catch(|| g::MultiPolygon::<f64>::try_from(mp)) {
+                Ok(Err(_)) => rep.count("typed_refusals_observed", 1),
+                Ok(Ok(gm)) => rep.violation(&format!("refusal/typed/{}", name), &case, J::s(format!("MultiPolygon::try_from(Multipatch) returned {} polygon(s) instead of refusing", gm.0.len()))),
+                Err(p) => rep.violation(&format!("refusal/typed/{}/panic", name), &case, J::s(p.class())),
+            }
+        }
         match panicmon::catch(|| g::Geometry::<f64>::try_from(s)) {
             Ok(Err(_)) => rep.count("refusals_observed", 1),
             Ok(Ok(gm)) => rep.violation(&format!("refusal/{}", name), &case, J::s(format!("converted to {:?} instead of being refused", gm))),
@@ -763,7 +821,7 @@ pub fn run(ctx: &Ctx) -> Report {
     }
     refusals(&mut rep, ctx);
     if ctx.only.is_none() {
-        for (k, req) in [("shape_to_geo_compared", 13 * n as u64 / 2), ("shape_geo_shape_round_trips", n as u64), ("geo_shape_geo_round_trips", n as u64), ("trait_indices_read", n as u64), ("refusals_observed", 18)] {
+        for (k, req) in [("shape_to_geo_compared", 13 * n as u64 / 2), ("shape_geo_shape_round_trips", n as u64), ("geo_shape_geo_round_trips", n as u64), ("trait_indices_read", n as u64), ("refusals_observed", 30)] {
             let v = rep.counters.get(k).copied().unwrap_or(0);
             rep.guard(k, v, req);
         }
